@@ -162,6 +162,8 @@ void ExecImpl::op_destroy_seq(const Op& op) {
   for (auto& mo : M.mons) for (int i = 0; i < mo.nseq; ++i) if (mo.seq[i] == id) { mo.seq[i] = -1; mo.in_seq[i] = false; }
   nontriv("C06"); nontriv("C14");
   if (shadow) return;
+  bury_moved_from_seqs();
+  if (stop) return;
   Obs o; obs_stack.push_back(&o);
   rseqs[id].reset();
   obs_stack.pop_back();
@@ -214,7 +216,7 @@ void ExecImpl::op_expect(const Op& op, std::function<void()>* scope_body) {
     std::unique_ptr<Inst> inst(new Inst);
     std::unique_ptr<int> cell(new int(0));
     inst->id = e.id; for (int i = 0; i < 3; ++i) inst->v[i] = e.v[i];
-    inst->lo = static_cast<size_t>(lo); inst->hi = static_cast<size_t>(hi); inst->snap = e.snap; inst->cell = cell.get();
+    inst->lo = static_cast<size_t>(lo); inst->hi = static_cast<size_t>(hi); inst->snap = e.snap; inst->str = std::to_string(1000 + e.id); inst->cell = cell.get();
     for (int i = 0; i < d.nseq; ++i) inst->s[i] = rseqs[chosen[static_cast<size_t>(i)]].get();
     bool threw = false;
     try {
@@ -245,7 +247,7 @@ void ExecImpl::op_expect(const Op& op, std::function<void()>* scope_body) {
     x.id = id; for (int i = 0; i < 3; ++i) x.v[i] = e.v[i];
     x.lo = static_cast<size_t>(lo); x.hi = static_cast<size_t>(hi);
     if (!(d.bf == BF_RT1 || d.bf == BF_RT2)) { x.lo = static_cast<size_t>(e.L < 0 ? 0 : e.L); x.hi = static_cast<size_t>(e.H < 0 ? 0 : e.H); }
-    x.snap = e.snap; x.cell = slot.cell.get();
+    x.snap = e.snap; x.str = std::to_string(1000 + id); x.cell = slot.cell.get();
     for (int i = 0; i < d.nseq; ++i) x.s[i] = rseqs[chosen[static_cast<size_t>(i)]].get();
     Obs oc, od;
     std::vector<XRep> want_release;
@@ -287,7 +289,7 @@ void ExecImpl::op_expect(const Op& op, std::function<void()>* scope_body) {
   x.id = e.id; for (int i = 0; i < 3; ++i) x.v[i] = e.v[i];
   x.lo = static_cast<size_t>(e.L < 0 ? 0 : e.L); x.hi = static_cast<size_t>(e.H < 0 ? 0 : e.H);
   if (d.bf == BF_RT1 || d.bf == BF_RT2) { x.lo = static_cast<size_t>(lo); x.hi = static_cast<size_t>(hi); }
-  x.snap = e.snap; x.cell = re.cell.get();
+  x.snap = e.snap; x.str = std::to_string(1000 + x.id); x.cell = re.cell.get();
   for (int i = 0; i < d.nseq; ++i) x.s[i] = rseqs[chosen[static_cast<size_t>(i)]].get();
   bool threw = false;
   try {
@@ -362,17 +364,38 @@ void ExecImpl::op_assign_seq(const Op& op) {
   s.alive = false;
   for (auto& e : M.exps) for (int i = 0; i < e.nseq; ++i) if (e.seq[i] == id) { e.seq[i] = -1; e.in_seq[i] = false; e.orphan = true; }
   for (auto& mo : M.mons) for (int i = 0; i < mo.nseq; ++i) if (mo.seq[i] == id) { mo.seq[i] = -1; mo.in_seq[i] = false; }
-  MSeq fresh; fresh.id = static_cast<int>(M.seqs.size());
-  M.seqs.push_back(fresh);
+  // the source: a fresh temporary, or another live sequence with whatever is pending in it (which the target takes over)
+  int src = -1;
+  if (op.a[2] % 3 != 0) { std::vector<int> live = M.live_seqs(); int c = pick(live, op.a[1]); if (c >= 0 && c != id) src = c; }
+  if (src < 0) { MSeq fresh; fresh.id = static_cast<int>(M.seqs.size()); M.seqs.push_back(fresh); }
   ++st.f_relocate;
   nontriv("C06"); nontriv("C14");
   if (shadow) return;
+  bury_moved_from_seqs();
   Obs o; obs_stack.push_back(&o);
-  *rseqs[static_cast<size_t>(id)] = trompeloeil::sequence{};
+  if (src < 0) *rseqs[static_cast<size_t>(id)] = trompeloeil::sequence{};
+  else *rseqs[static_cast<size_t>(id)] = std::move(*rseqs[static_cast<size_t>(src)]);
   obs_stack.pop_back();
-  rseqs.push_back(std::move(rseqs[static_cast<size_t>(id)]));   // the same C++ object is now the fresh model sequence
+  if (src < 0) rseqs.push_back(std::move(rseqs[static_cast<size_t>(id)]));   // the same C++ object is now the fresh model sequence
+  else {
+    // the same C++ object now stands for the source's model sequence; the moved-from object owns nothing any more
+    moved_from_seqs.push_back(std::move(rseqs[static_cast<size_t>(src)]));
+    rseqs[static_cast<size_t>(src)] = std::move(rseqs[static_cast<size_t>(id)]);
+    ++st.p_seq_taken_over;
+  }
   check_reports(o, want, false, "move assignment over a sequence", "C06,C15");
   check_no_ok(o, "assign_seq");
+  if (src >= 0 && op.a[2] % 3 == 1 && !stop) bury_moved_from_seqs();   // otherwise it dies at a later sequence operation or at the end
+}
+
+// moved-from sequence objects die: nothing may be reported and no live sequence may notice
+void ExecImpl::bury_moved_from_seqs() {
+  if (moved_from_seqs.empty()) return;
+  Obs o; obs_stack.push_back(&o);
+  moved_from_seqs.clear();
+  obs_stack.pop_back();
+  std::vector<XRep> none;
+  check_reports(o, none, false, "destruction of a moved-from sequence object", "C06,C14");
 }
 
 // shadow stepping only: the innermost scope ends (real stepping consumes end_scope in run_range)
@@ -412,6 +435,7 @@ void ExecImpl::op_mutate(const Op& op) {
   int id = pick(M.live_exps(), op.a[0]);
   if (id < 0) return;
   M.exps[id].snap = op.a[1] & 7;
+  M.exps[id].mutated = true;
   if (M.exps[id].snap != M.exps[id].snap0) ++st.p_lr_differs;
   if (!shadow) rexps[static_cast<size_t>(id)].inst->snap = M.exps[id].snap;
 }
